@@ -62,7 +62,7 @@ var pureAllow = []string{
 	"github.com/kubewharf/kubegateway/pkg/util/tracing", "github.com/gobeam/stringy", "encoding/json", "bytes", "unicode/utf8",
 	"k8s.io/apimachinery/pkg/util/sets", "k8s.io/kubernetes/pkg/apis/core/validation", "k8s.io/apimachinery/pkg/api/validation", "k8s.io/client-go/util/cert", "k8s.io/client-go/util/keyutil", "k8s.io/apimachinery/pkg/runtime/schema", "k8s.io/apimachinery/pkg/types", "crypto/x509", "encoding/pem", "crypto/tls", "hash/fnv", "regexp",
 	"k8s.io/apiserver/pkg/endpoints/request", "k8s.io/apiserver/pkg/authentication/user", "k8s.io/apiserver/pkg/authorization/authorizer", "k8s.io/apiserver/pkg/authentication/serviceaccount",
-	"context",
+	"context", "k8s.io/apimachinery/pkg/api/equality", "k8s.io/apimachinery/third_party/forked/golang/reflect", "k8s.io/apimachinery/pkg/conversion",
 }
 
 func isPureAllowed(path string) bool {
@@ -179,6 +179,22 @@ func (fr *frame) call(v *ssa.Call, cc *ssa.CallCommon, st *State, R string, b *s
 	if bi, ok := cc.Value.(*ssa.Builtin); ok {
 		fr.builtin(v, bi, cc, st, R)
 		return
+	}
+	if fe := foreachHelperOf(cc); fe != nil {
+		fnArg := cc.Args[fe.fnArg]
+		for {
+			if ct, ok := fnArg.(*ssa.ChangeType); ok {
+				fnArg = ct.X
+				continue
+			}
+			break
+		}
+		if mc, ok := fr.closures[fnArg]; ok {
+			if cctr := fc.eng.ContractFor(mc.Fn.(*ssa.Function)); cctr != nil {
+				fr.foreachCall(fe, cctr, mc, cc, st, R)
+				return
+			}
+		}
 	}
 	kind, ctr, callee := fr.classifyCall(cc)
 	if callee != nil && len(cc.Args) >= 2 {
@@ -1402,6 +1418,137 @@ func (fr *frame) assumeInvariants(h *ssa.BasicBlock, st *State) {
 		g := env.trAssume(c.E)
 		fc.facts = append(fc.facts, Fact{Text: fmt.Sprintf("(assert (=> %s %s))", R, g), Tag: fmt.Sprintf("inv:%d:%s:%d", c.Loop, c.Label, c.Stage)})
 	}
+}
+
+// foreachHelper: a library iterator that calls a closure once per element of a collection, in some order, until the closure
+// returns false: goset.Set.Range(func(index, elem) bool) and (*sync.Map).Range(func(key, value) bool).
+type foreachHelper struct {
+	name  string
+	fnArg int // index of the closure in cc.Args
+	kind  int // 1 goset, 2 sync.Map
+}
+
+func foreachHelperOf(cc *ssa.CallCommon) *foreachHelper {
+	if cc.IsInvoke() {
+		if cc.Method.Name() == "Range" && cc.Method.Pkg() != nil && strings.HasSuffix(cc.Method.Pkg().Path(), "github.com/zoumo/goset") {
+			return &foreachHelper{name: "goset.Set.Range", fnArg: 0, kind: 1}
+		}
+		return nil
+	}
+	if callee := cc.StaticCallee(); callee != nil && callee.String() == "(*sync.Map).Range" && len(cc.Args) == 2 {
+		return &foreachHelper{name: "sync.Map.Range", fnArg: 1, kind: 2}
+	}
+	return nil
+}
+
+// foreachCall: higher-order stub for the iterators above, for a closure under contract.
+//   - the closure's requires are asserted for an arbitrary element at the state before the iteration (that they hold again
+//     before every later call is the closure's own obligation "requires re-established", see VerifyFunc);
+//   - everything the closure may modify is havocked; if the collection is empty nothing changes;
+//   - ensures labelled each_* (one-state, proved stable under further calls in VerifyFunc) hold afterwards for EVERY element
+//     provided the last call returned true (then no call returned false and every element was visited);
+//   - the other ensures are assumed for the last call with old() = the state before the iteration. TRUSTED: they must be
+//     reflexive-transitive two-state relations or one-state facts (the same assumption as for the retry helpers).
+func (fr *frame) foreachCall(fe *foreachHelper, ctr *FuncContract, mc *ssa.MakeClosure, cc *ssa.CallCommon, st *State, R string) {
+	fc := fr.fc
+	P := fc.P
+	fn := mc.Fn.(*ssa.Function)
+	if len(fn.Params) != 2 {
+		fc.errf("%s: closure must take two parameters", fe.name)
+		return
+	}
+	pre := st.clone()
+	fc.fresh++
+	tag := fmt.Sprintf("%sfe%d", fr.prefix, fc.fresh)
+	// membership of an element (as SMT term over a variable name) in the collection before the iteration
+	var member func(p0, p1 string) string
+	var bindPattern func(p0, p1 string) string
+	switch fe.kind {
+	case 1:
+		fc.compDecl("G:gsmem", "(Array Int (Array Int Bool))")
+		mem := fmt.Sprintf("(select %s %s)", fc.lookup(pre, "G:gsmem"), fr.val(cc.Value))
+		member = func(p0, p1 string) string { return fmt.Sprintf("(select %s %s)", mem, p1) }
+		bindPattern = member
+	case 2:
+		smv, smd := fc.syncMapComps()
+		a := fr.val(cc.Args[0])
+		dom := fmt.Sprintf("(select %s %s)", fc.lookup(pre, smd), a)
+		val := fmt.Sprintf("(select %s %s)", fc.lookup(pre, smv), a)
+		member = func(p0, p1 string) string {
+			return fmt.Sprintf("(and (select %s %s) (= %s (select %s %s)))", dom, p0, p1, val, p0)
+		}
+		bindPattern = func(p0, p1 string) string { return fmt.Sprintf("(select %s %s)", dom, p0) }
+	}
+	paramEnv := func(e *Env, p0, p1 string) {
+		e.names[fn.Params[0].Name()] = TV{p0, P.SortOf(fn.Params[0].Type()), fn.Params[0].Type()}
+		e.names[fn.Params[1].Name()] = TV{p1, P.SortOf(fn.Params[1].Type()), fn.Params[1].Type()}
+	}
+	// first call: requires for an arbitrary member
+	f0, f1 := fc.freshConst(tag+"_first0", P.SortOf(fn.Params[0].Type())), fc.freshConst(tag+"_first1", P.SortOf(fn.Params[1].Type()))
+	envPre := fr.closureEnv(ctr, mc, pre, pre)
+	paramEnv(envPre, f0, f1)
+	for _, c := range ctr.Requires {
+		g := envPre.tr(c.E)
+		fc.obls = append(fc.obls, &Obl{Func: fc.key, Kind: "requires", Label: ctr.Key + ":" + c.Label, Site: fr.prefix + "foreach", NFacts: len(fc.facts), Path: fmt.Sprintf("(and %s %s)", R, member(f0, f1)), Goal: g.T, Text: c.Text})
+	}
+	// effects
+	if ctr.HasMod {
+		for _, m := range ctr.Modifies {
+			fr.havocItem(envPre, m, st)
+		}
+	} else if !ctr.Pure {
+		fr.havocAllKeepFresh(st)
+	}
+	nt := fc.freshConst(tag+"_top", "Int")
+	fc.fact("", "(>= %s %s)", nt, st.comp["TOP"])
+	st.comp["TOP"] = nt
+	// empty collection: nothing happened
+	ran := fc.freshConst(tag+"_ran", "Bool")
+	w0, w1 := fc.freshConst(tag+"_w0", P.SortOf(fn.Params[0].Type())), fc.freshConst(tag+"_w1", P.SortOf(fn.Params[1].Type()))
+	fc.fact("", "(=> %s (=> %s %s))", R, ran, member(w0, w1))
+	fc.fact("", "(=> %s (=> (not %s) (forall ((fe_p0 %s) (fe_p1 %s)) (! (not %s) :pattern (%s)))))", R, ran, P.SortOf(fn.Params[0].Type()), P.SortOf(fn.Params[1].Type()), member("fe_p0", "fe_p1"), bindPattern("fe_p0", "fe_p1"))
+	merged := fc.mergeStates([]string{ran, "true"}, []*State{st, pre}, tag)
+	*st = *merged
+	// last call
+	l0, l1 := fc.freshConst(tag+"_last0", P.SortOf(fn.Params[0].Type())), fc.freshConst(tag+"_last1", P.SortOf(fn.Params[1].Type()))
+	fc.fact("", "(=> %s (=> %s %s))", R, ran, member(l0, l1))
+	lastret := fc.freshConst(tag+"_lastret", "Bool")
+	post := fr.closureEnv(ctr, mc, pre, st)
+	paramEnv(post, l0, l1)
+	res := fn.Signature.Results()
+	if res.Len() == 1 {
+		post.names["result"] = TV{lastret, "Bool", res.At(0).Type()}
+		post.names["result0"] = post.names["result"]
+	}
+	guard := fmt.Sprintf("(and %s %s)", R, ran)
+	for _, c := range ctr.Ensures {
+		if strings.HasPrefix(c.Label, "each_") || strings.Contains(c.Text, "defined(") {
+			continue
+		}
+		nErr := len(fc.errs)
+		g := post.trAssume(c.E)
+		if len(fc.errs) > nErr {
+			fc.errs = fc.errs[:nErr]
+			continue
+		}
+		fc.facts = append(fc.facts, Fact{Text: fmt.Sprintf("(assert (=> %s %s))", guard, g), Tag: "post:" + ctr.Key + ":" + c.Label})
+	}
+	// every element was visited
+	for _, c := range ctr.Ensures {
+		if !strings.HasPrefix(c.Label, "each_") {
+			continue
+		}
+		each := fr.closureEnv(ctr, mc, pre, st)
+		each.old = nil
+		paramEnv(each, "fe_p0", "fe_p1")
+		nErr := len(fc.errs)
+		g := each.tr(c.E)
+		if len(fc.errs) > nErr {
+			continue
+		}
+		fc.facts = append(fc.facts, Fact{Text: fmt.Sprintf("(assert (=> (and %s %s) (forall ((fe_p0 %s) (fe_p1 %s)) (! (=> %s %s) :pattern (%s)))))", guard, lastret, P.SortOf(fn.Params[0].Type()), P.SortOf(fn.Params[1].Type()), member("fe_p0", "fe_p1"), g.T, bindPattern("fe_p0", "fe_p1")), Tag: "post:" + ctr.Key + ":" + c.Label})
+	}
+	fc.abstract("iterator %s: sequentialised; non-each ensures of the closure are assumed across the whole iteration (trusted: transitive relations)", fe.name)
 }
 
 // retryHelpers: helper -> index of the closure argument.
